@@ -183,13 +183,13 @@ mod verif_c01_step_flags {
         kani::cover!(true, "c01_set_flags_p4_entry_4kib_p4_table_lo: reachable");
     }
 
-    //@ obligation C02 C02.set_flags_p4_entry_4kib.shape_p4_table.documented_outcome bounded="pool of 7 tables (4 path + 3 allocatable); tree-shaped sparse pre-state (target path, one neighbour word per path table, garbage in allocatable frames); page-table indices (511,511,511,511)"
-    //@ obligation C01 C01.set_flags_p4_entry_4kib.shape_p4_table.no_leaf_changes bounded="pool of 7 tables (4 path + 3 allocatable); tree-shaped sparse pre-state (target path, one neighbour word per path table, garbage in allocatable frames); page-table indices (511,511,511,511)"
-    //@ obligation C01 C01.set_flags_p4_entry_4kib.shape_p4_table.entry_flags_replaced_address_kept bounded="pool of 7 tables (4 path + 3 allocatable); tree-shaped sparse pre-state (target path, one neighbour word per path table, garbage in allocatable frames); page-table indices (511,511,511,511)"
-    //@ obligation C11 C11.set_flags_p4_entry_4kib.shape_p4_table.flush_all_token bounded="pool of 7 tables (4 path + 3 allocatable); tree-shaped sparse pre-state (target path, one neighbour word per path table, garbage in allocatable frames); page-table indices (511,511,511,511)"
-    //@ obligation C09 C09.set_flags_p4_entry_4kib.shape_p4_table.only_dictated_slots_change bounded="pool of 7 tables (4 path + 3 allocatable); tree-shaped sparse pre-state (target path, one neighbour word per path table, garbage in allocatable frames); page-table indices (511,511,511,511)"
-    //@ obligation C09 C09.set_flags_p4_entry_4kib.shape_p4_table.no_frames_requested_or_zeroed bounded="pool of 7 tables (4 path + 3 allocatable); tree-shaped sparse pre-state (target path, one neighbour word per path table, garbage in allocatable frames); page-table indices (511,511,511,511)"
-    //@ obligation C09 C09.set_flags_p4_entry_4kib.shape_p4_table.no_dangling_table_pointer bounded="pool of 7 tables (4 path + 3 allocatable); tree-shaped sparse pre-state (target path, one neighbour word per path table, garbage in allocatable frames); page-table indices (511,511,511,511)"
+    //@ obligation C02 C02.set_flags_p4_entry_4kib.shape_p4_table.documented_outcome tier=thorough bounded="pool of 7 tables (4 path + 3 allocatable); tree-shaped sparse pre-state (target path, one neighbour word per path table, garbage in allocatable frames); page-table indices (511,511,511,511)"
+    //@ obligation C01 C01.set_flags_p4_entry_4kib.shape_p4_table.no_leaf_changes tier=thorough bounded="pool of 7 tables (4 path + 3 allocatable); tree-shaped sparse pre-state (target path, one neighbour word per path table, garbage in allocatable frames); page-table indices (511,511,511,511)"
+    //@ obligation C01 C01.set_flags_p4_entry_4kib.shape_p4_table.entry_flags_replaced_address_kept tier=thorough bounded="pool of 7 tables (4 path + 3 allocatable); tree-shaped sparse pre-state (target path, one neighbour word per path table, garbage in allocatable frames); page-table indices (511,511,511,511)"
+    //@ obligation C11 C11.set_flags_p4_entry_4kib.shape_p4_table.flush_all_token tier=thorough bounded="pool of 7 tables (4 path + 3 allocatable); tree-shaped sparse pre-state (target path, one neighbour word per path table, garbage in allocatable frames); page-table indices (511,511,511,511)"
+    //@ obligation C09 C09.set_flags_p4_entry_4kib.shape_p4_table.only_dictated_slots_change tier=thorough bounded="pool of 7 tables (4 path + 3 allocatable); tree-shaped sparse pre-state (target path, one neighbour word per path table, garbage in allocatable frames); page-table indices (511,511,511,511)"
+    //@ obligation C09 C09.set_flags_p4_entry_4kib.shape_p4_table.no_frames_requested_or_zeroed tier=thorough bounded="pool of 7 tables (4 path + 3 allocatable); tree-shaped sparse pre-state (target path, one neighbour word per path table, garbage in allocatable frames); page-table indices (511,511,511,511)"
+    //@ obligation C09 C09.set_flags_p4_entry_4kib.shape_p4_table.no_dangling_table_pointer tier=thorough bounded="pool of 7 tables (4 path + 3 allocatable); tree-shaped sparse pre-state (target path, one neighbour word per path table, garbage in allocatable frames); page-table indices (511,511,511,511)"
     #[kani::proof]
     #[kani::stub(PageTable::zero, zero_stub)]
     fn c01_set_flags_p4_entry_4kib_p4_table_hi() {
@@ -211,13 +211,13 @@ mod verif_c01_step_flags {
         kani::cover!(true, "c01_set_flags_p4_entry_4kib_p4_table_mid: reachable");
     }
 
-    //@ obligation C02 C02.set_flags_p4_entry_4kib.shape_p4_table.documented_outcome tier=thorough bounded="pool of 7 tables (4 path + 3 allocatable); tree-shaped sparse pre-state (target path, one neighbour word per path table, garbage in allocatable frames); page-table indices (256,1,510,255)"
-    //@ obligation C01 C01.set_flags_p4_entry_4kib.shape_p4_table.no_leaf_changes tier=thorough bounded="pool of 7 tables (4 path + 3 allocatable); tree-shaped sparse pre-state (target path, one neighbour word per path table, garbage in allocatable frames); page-table indices (256,1,510,255)"
-    //@ obligation C01 C01.set_flags_p4_entry_4kib.shape_p4_table.entry_flags_replaced_address_kept tier=thorough bounded="pool of 7 tables (4 path + 3 allocatable); tree-shaped sparse pre-state (target path, one neighbour word per path table, garbage in allocatable frames); page-table indices (256,1,510,255)"
-    //@ obligation C11 C11.set_flags_p4_entry_4kib.shape_p4_table.flush_all_token tier=thorough bounded="pool of 7 tables (4 path + 3 allocatable); tree-shaped sparse pre-state (target path, one neighbour word per path table, garbage in allocatable frames); page-table indices (256,1,510,255)"
-    //@ obligation C09 C09.set_flags_p4_entry_4kib.shape_p4_table.only_dictated_slots_change tier=thorough bounded="pool of 7 tables (4 path + 3 allocatable); tree-shaped sparse pre-state (target path, one neighbour word per path table, garbage in allocatable frames); page-table indices (256,1,510,255)"
-    //@ obligation C09 C09.set_flags_p4_entry_4kib.shape_p4_table.no_frames_requested_or_zeroed tier=thorough bounded="pool of 7 tables (4 path + 3 allocatable); tree-shaped sparse pre-state (target path, one neighbour word per path table, garbage in allocatable frames); page-table indices (256,1,510,255)"
-    //@ obligation C09 C09.set_flags_p4_entry_4kib.shape_p4_table.no_dangling_table_pointer tier=thorough bounded="pool of 7 tables (4 path + 3 allocatable); tree-shaped sparse pre-state (target path, one neighbour word per path table, garbage in allocatable frames); page-table indices (256,1,510,255)"
+    //@ obligation C02 C02.set_flags_p4_entry_4kib.shape_p4_table.documented_outcome bounded="pool of 7 tables (4 path + 3 allocatable); tree-shaped sparse pre-state (target path, one neighbour word per path table, garbage in allocatable frames); page-table indices (256,1,510,255)"
+    //@ obligation C01 C01.set_flags_p4_entry_4kib.shape_p4_table.no_leaf_changes bounded="pool of 7 tables (4 path + 3 allocatable); tree-shaped sparse pre-state (target path, one neighbour word per path table, garbage in allocatable frames); page-table indices (256,1,510,255)"
+    //@ obligation C01 C01.set_flags_p4_entry_4kib.shape_p4_table.entry_flags_replaced_address_kept bounded="pool of 7 tables (4 path + 3 allocatable); tree-shaped sparse pre-state (target path, one neighbour word per path table, garbage in allocatable frames); page-table indices (256,1,510,255)"
+    //@ obligation C11 C11.set_flags_p4_entry_4kib.shape_p4_table.flush_all_token bounded="pool of 7 tables (4 path + 3 allocatable); tree-shaped sparse pre-state (target path, one neighbour word per path table, garbage in allocatable frames); page-table indices (256,1,510,255)"
+    //@ obligation C09 C09.set_flags_p4_entry_4kib.shape_p4_table.only_dictated_slots_change bounded="pool of 7 tables (4 path + 3 allocatable); tree-shaped sparse pre-state (target path, one neighbour word per path table, garbage in allocatable frames); page-table indices (256,1,510,255)"
+    //@ obligation C09 C09.set_flags_p4_entry_4kib.shape_p4_table.no_frames_requested_or_zeroed bounded="pool of 7 tables (4 path + 3 allocatable); tree-shaped sparse pre-state (target path, one neighbour word per path table, garbage in allocatable frames); page-table indices (256,1,510,255)"
+    //@ obligation C09 C09.set_flags_p4_entry_4kib.shape_p4_table.no_dangling_table_pointer bounded="pool of 7 tables (4 path + 3 allocatable); tree-shaped sparse pre-state (target path, one neighbour word per path table, garbage in allocatable frames); page-table indices (256,1,510,255)"
     #[kani::proof]
     #[kani::stub(PageTable::zero, zero_stub)]
     fn c01_set_flags_p4_entry_4kib_p4_table_up() {
@@ -329,11 +329,11 @@ mod verif_c01_step_flags {
         kani::cover!(true, "c01_set_flags_p4_entry_2mib_p4_table_up: reachable");
     }
 
-    //@ obligation C02 C02.set_flags_p4_entry_1gib.shape_p4_absent.documented_outcome bounded="pool of 7 tables (4 path + 3 allocatable); tree-shaped sparse pre-state (target path, one neighbour word per path table, garbage in allocatable frames); page-table indices (0,0,0,0)"
-    //@ obligation C02 C02.set_flags_p4_entry_1gib.shape_p4_absent.error_leaves_every_mapping bounded="pool of 7 tables (4 path + 3 allocatable); tree-shaped sparse pre-state (target path, one neighbour word per path table, garbage in allocatable frames); page-table indices (0,0,0,0)"
-    //@ obligation C09 C09.set_flags_p4_entry_1gib.shape_p4_absent.only_dictated_slots_change bounded="pool of 7 tables (4 path + 3 allocatable); tree-shaped sparse pre-state (target path, one neighbour word per path table, garbage in allocatable frames); page-table indices (0,0,0,0)"
-    //@ obligation C09 C09.set_flags_p4_entry_1gib.shape_p4_absent.no_frames_requested_or_zeroed bounded="pool of 7 tables (4 path + 3 allocatable); tree-shaped sparse pre-state (target path, one neighbour word per path table, garbage in allocatable frames); page-table indices (0,0,0,0)"
-    //@ obligation C09 C09.set_flags_p4_entry_1gib.shape_p4_absent.no_dangling_table_pointer bounded="pool of 7 tables (4 path + 3 allocatable); tree-shaped sparse pre-state (target path, one neighbour word per path table, garbage in allocatable frames); page-table indices (0,0,0,0)"
+    //@ obligation C02 C02.set_flags_p4_entry_1gib.shape_p4_absent.documented_outcome tier=thorough bounded="pool of 7 tables (4 path + 3 allocatable); tree-shaped sparse pre-state (target path, one neighbour word per path table, garbage in allocatable frames); page-table indices (0,0,0,0)"
+    //@ obligation C02 C02.set_flags_p4_entry_1gib.shape_p4_absent.error_leaves_every_mapping tier=thorough bounded="pool of 7 tables (4 path + 3 allocatable); tree-shaped sparse pre-state (target path, one neighbour word per path table, garbage in allocatable frames); page-table indices (0,0,0,0)"
+    //@ obligation C09 C09.set_flags_p4_entry_1gib.shape_p4_absent.only_dictated_slots_change tier=thorough bounded="pool of 7 tables (4 path + 3 allocatable); tree-shaped sparse pre-state (target path, one neighbour word per path table, garbage in allocatable frames); page-table indices (0,0,0,0)"
+    //@ obligation C09 C09.set_flags_p4_entry_1gib.shape_p4_absent.no_frames_requested_or_zeroed tier=thorough bounded="pool of 7 tables (4 path + 3 allocatable); tree-shaped sparse pre-state (target path, one neighbour word per path table, garbage in allocatable frames); page-table indices (0,0,0,0)"
+    //@ obligation C09 C09.set_flags_p4_entry_1gib.shape_p4_absent.no_dangling_table_pointer tier=thorough bounded="pool of 7 tables (4 path + 3 allocatable); tree-shaped sparse pre-state (target path, one neighbour word per path table, garbage in allocatable frames); page-table indices (0,0,0,0)"
     #[kani::proof]
     #[kani::stub(PageTable::zero, zero_stub)]
     fn c02_set_flags_p4_entry_1gib_p4_absent_lo() {
@@ -353,11 +353,11 @@ mod verif_c01_step_flags {
         kani::cover!(true, "c02_set_flags_p4_entry_1gib_p4_absent_hi: reachable");
     }
 
-    //@ obligation C02 C02.set_flags_p4_entry_1gib.shape_p4_absent.documented_outcome tier=thorough bounded="pool of 7 tables (4 path + 3 allocatable); tree-shaped sparse pre-state (target path, one neighbour word per path table, garbage in allocatable frames); page-table indices (255,511,0,1)"
-    //@ obligation C02 C02.set_flags_p4_entry_1gib.shape_p4_absent.error_leaves_every_mapping tier=thorough bounded="pool of 7 tables (4 path + 3 allocatable); tree-shaped sparse pre-state (target path, one neighbour word per path table, garbage in allocatable frames); page-table indices (255,511,0,1)"
-    //@ obligation C09 C09.set_flags_p4_entry_1gib.shape_p4_absent.only_dictated_slots_change tier=thorough bounded="pool of 7 tables (4 path + 3 allocatable); tree-shaped sparse pre-state (target path, one neighbour word per path table, garbage in allocatable frames); page-table indices (255,511,0,1)"
-    //@ obligation C09 C09.set_flags_p4_entry_1gib.shape_p4_absent.no_frames_requested_or_zeroed tier=thorough bounded="pool of 7 tables (4 path + 3 allocatable); tree-shaped sparse pre-state (target path, one neighbour word per path table, garbage in allocatable frames); page-table indices (255,511,0,1)"
-    //@ obligation C09 C09.set_flags_p4_entry_1gib.shape_p4_absent.no_dangling_table_pointer tier=thorough bounded="pool of 7 tables (4 path + 3 allocatable); tree-shaped sparse pre-state (target path, one neighbour word per path table, garbage in allocatable frames); page-table indices (255,511,0,1)"
+    //@ obligation C02 C02.set_flags_p4_entry_1gib.shape_p4_absent.documented_outcome bounded="pool of 7 tables (4 path + 3 allocatable); tree-shaped sparse pre-state (target path, one neighbour word per path table, garbage in allocatable frames); page-table indices (255,511,0,1)"
+    //@ obligation C02 C02.set_flags_p4_entry_1gib.shape_p4_absent.error_leaves_every_mapping bounded="pool of 7 tables (4 path + 3 allocatable); tree-shaped sparse pre-state (target path, one neighbour word per path table, garbage in allocatable frames); page-table indices (255,511,0,1)"
+    //@ obligation C09 C09.set_flags_p4_entry_1gib.shape_p4_absent.only_dictated_slots_change bounded="pool of 7 tables (4 path + 3 allocatable); tree-shaped sparse pre-state (target path, one neighbour word per path table, garbage in allocatable frames); page-table indices (255,511,0,1)"
+    //@ obligation C09 C09.set_flags_p4_entry_1gib.shape_p4_absent.no_frames_requested_or_zeroed bounded="pool of 7 tables (4 path + 3 allocatable); tree-shaped sparse pre-state (target path, one neighbour word per path table, garbage in allocatable frames); page-table indices (255,511,0,1)"
+    //@ obligation C09 C09.set_flags_p4_entry_1gib.shape_p4_absent.no_dangling_table_pointer bounded="pool of 7 tables (4 path + 3 allocatable); tree-shaped sparse pre-state (target path, one neighbour word per path table, garbage in allocatable frames); page-table indices (255,511,0,1)"
     #[kani::proof]
     #[kani::stub(PageTable::zero, zero_stub)]
     fn c02_set_flags_p4_entry_1gib_p4_absent_mid() {
@@ -729,11 +729,11 @@ mod verif_c01_step_flags {
         kani::cover!(true, "c02_set_flags_p3_entry_2mib_p3_absent_up: reachable");
     }
 
-    //@ obligation C02 C02.set_flags_p3_entry_2mib.shape_huge_leaf.reports_parent_entry_huge_page_and_unchanged bounded="pool of 7 tables (4 path + 3 allocatable); tree-shaped sparse pre-state (target path, one neighbour word per path table, garbage in allocatable frames); page-table indices (0,0,0,0)"
-    //@ obligation C02 C02.set_flags_p3_entry_2mib.shape_huge_leaf.error_leaves_every_mapping bounded="pool of 7 tables (4 path + 3 allocatable); tree-shaped sparse pre-state (target path, one neighbour word per path table, garbage in allocatable frames); page-table indices (0,0,0,0)"
-    //@ obligation C09 C09.set_flags_p3_entry_2mib.shape_huge_leaf.only_dictated_slots_change bounded="pool of 7 tables (4 path + 3 allocatable); tree-shaped sparse pre-state (target path, one neighbour word per path table, garbage in allocatable frames); page-table indices (0,0,0,0)"
-    //@ obligation C09 C09.set_flags_p3_entry_2mib.shape_huge_leaf.no_frames_requested_or_zeroed bounded="pool of 7 tables (4 path + 3 allocatable); tree-shaped sparse pre-state (target path, one neighbour word per path table, garbage in allocatable frames); page-table indices (0,0,0,0)"
-    //@ obligation C09 C09.set_flags_p3_entry_2mib.shape_huge_leaf.no_dangling_table_pointer bounded="pool of 7 tables (4 path + 3 allocatable); tree-shaped sparse pre-state (target path, one neighbour word per path table, garbage in allocatable frames); page-table indices (0,0,0,0)"
+    //@ obligation C02 C02.set_flags_p3_entry_2mib.shape_huge_leaf.reports_parent_entry_huge_page_and_unchanged tier=thorough bounded="pool of 7 tables (4 path + 3 allocatable); tree-shaped sparse pre-state (target path, one neighbour word per path table, garbage in allocatable frames); page-table indices (0,0,0,0)"
+    //@ obligation C02 C02.set_flags_p3_entry_2mib.shape_huge_leaf.error_leaves_every_mapping tier=thorough bounded="pool of 7 tables (4 path + 3 allocatable); tree-shaped sparse pre-state (target path, one neighbour word per path table, garbage in allocatable frames); page-table indices (0,0,0,0)"
+    //@ obligation C09 C09.set_flags_p3_entry_2mib.shape_huge_leaf.only_dictated_slots_change tier=thorough bounded="pool of 7 tables (4 path + 3 allocatable); tree-shaped sparse pre-state (target path, one neighbour word per path table, garbage in allocatable frames); page-table indices (0,0,0,0)"
+    //@ obligation C09 C09.set_flags_p3_entry_2mib.shape_huge_leaf.no_frames_requested_or_zeroed tier=thorough bounded="pool of 7 tables (4 path + 3 allocatable); tree-shaped sparse pre-state (target path, one neighbour word per path table, garbage in allocatable frames); page-table indices (0,0,0,0)"
+    //@ obligation C09 C09.set_flags_p3_entry_2mib.shape_huge_leaf.no_dangling_table_pointer tier=thorough bounded="pool of 7 tables (4 path + 3 allocatable); tree-shaped sparse pre-state (target path, one neighbour word per path table, garbage in allocatable frames); page-table indices (0,0,0,0)"
     #[kani::proof]
     #[kani::stub(PageTable::zero, zero_stub)]
     fn c02_set_flags_p3_entry_2mib_huge_leaf_lo() {
@@ -753,11 +753,11 @@ mod verif_c01_step_flags {
         kani::cover!(true, "c02_set_flags_p3_entry_2mib_huge_leaf_hi: reachable");
     }
 
-    //@ obligation C02 C02.set_flags_p3_entry_2mib.shape_huge_leaf.reports_parent_entry_huge_page_and_unchanged tier=thorough bounded="pool of 7 tables (4 path + 3 allocatable); tree-shaped sparse pre-state (target path, one neighbour word per path table, garbage in allocatable frames); page-table indices (255,511,0,1)"
-    //@ obligation C02 C02.set_flags_p3_entry_2mib.shape_huge_leaf.error_leaves_every_mapping tier=thorough bounded="pool of 7 tables (4 path + 3 allocatable); tree-shaped sparse pre-state (target path, one neighbour word per path table, garbage in allocatable frames); page-table indices (255,511,0,1)"
-    //@ obligation C09 C09.set_flags_p3_entry_2mib.shape_huge_leaf.only_dictated_slots_change tier=thorough bounded="pool of 7 tables (4 path + 3 allocatable); tree-shaped sparse pre-state (target path, one neighbour word per path table, garbage in allocatable frames); page-table indices (255,511,0,1)"
-    //@ obligation C09 C09.set_flags_p3_entry_2mib.shape_huge_leaf.no_frames_requested_or_zeroed tier=thorough bounded="pool of 7 tables (4 path + 3 allocatable); tree-shaped sparse pre-state (target path, one neighbour word per path table, garbage in allocatable frames); page-table indices (255,511,0,1)"
-    //@ obligation C09 C09.set_flags_p3_entry_2mib.shape_huge_leaf.no_dangling_table_pointer tier=thorough bounded="pool of 7 tables (4 path + 3 allocatable); tree-shaped sparse pre-state (target path, one neighbour word per path table, garbage in allocatable frames); page-table indices (255,511,0,1)"
+    //@ obligation C02 C02.set_flags_p3_entry_2mib.shape_huge_leaf.reports_parent_entry_huge_page_and_unchanged bounded="pool of 7 tables (4 path + 3 allocatable); tree-shaped sparse pre-state (target path, one neighbour word per path table, garbage in allocatable frames); page-table indices (255,511,0,1)"
+    //@ obligation C02 C02.set_flags_p3_entry_2mib.shape_huge_leaf.error_leaves_every_mapping bounded="pool of 7 tables (4 path + 3 allocatable); tree-shaped sparse pre-state (target path, one neighbour word per path table, garbage in allocatable frames); page-table indices (255,511,0,1)"
+    //@ obligation C09 C09.set_flags_p3_entry_2mib.shape_huge_leaf.only_dictated_slots_change bounded="pool of 7 tables (4 path + 3 allocatable); tree-shaped sparse pre-state (target path, one neighbour word per path table, garbage in allocatable frames); page-table indices (255,511,0,1)"
+    //@ obligation C09 C09.set_flags_p3_entry_2mib.shape_huge_leaf.no_frames_requested_or_zeroed bounded="pool of 7 tables (4 path + 3 allocatable); tree-shaped sparse pre-state (target path, one neighbour word per path table, garbage in allocatable frames); page-table indices (255,511,0,1)"
+    //@ obligation C09 C09.set_flags_p3_entry_2mib.shape_huge_leaf.no_dangling_table_pointer bounded="pool of 7 tables (4 path + 3 allocatable); tree-shaped sparse pre-state (target path, one neighbour word per path table, garbage in allocatable frames); page-table indices (255,511,0,1)"
     #[kani::proof]
     #[kani::stub(PageTable::zero, zero_stub)]
     fn c02_set_flags_p3_entry_2mib_huge_leaf_mid() {
@@ -819,13 +819,13 @@ mod verif_c01_step_flags {
         kani::cover!(true, "c01_set_flags_p3_entry_2mib_p3_table_mid: reachable");
     }
 
-    //@ obligation C02 C02.set_flags_p3_entry_2mib.shape_p3_table.documented_outcome tier=thorough bounded="pool of 7 tables (4 path + 3 allocatable); tree-shaped sparse pre-state (target path, one neighbour word per path table, garbage in allocatable frames); page-table indices (256,1,510,255)"
-    //@ obligation C01 C01.set_flags_p3_entry_2mib.shape_p3_table.no_leaf_changes tier=thorough bounded="pool of 7 tables (4 path + 3 allocatable); tree-shaped sparse pre-state (target path, one neighbour word per path table, garbage in allocatable frames); page-table indices (256,1,510,255)"
-    //@ obligation C01 C01.set_flags_p3_entry_2mib.shape_p3_table.entry_flags_replaced_address_kept tier=thorough bounded="pool of 7 tables (4 path + 3 allocatable); tree-shaped sparse pre-state (target path, one neighbour word per path table, garbage in allocatable frames); page-table indices (256,1,510,255)"
-    //@ obligation C11 C11.set_flags_p3_entry_2mib.shape_p3_table.flush_all_token tier=thorough bounded="pool of 7 tables (4 path + 3 allocatable); tree-shaped sparse pre-state (target path, one neighbour word per path table, garbage in allocatable frames); page-table indices (256,1,510,255)"
-    //@ obligation C09 C09.set_flags_p3_entry_2mib.shape_p3_table.only_dictated_slots_change tier=thorough bounded="pool of 7 tables (4 path + 3 allocatable); tree-shaped sparse pre-state (target path, one neighbour word per path table, garbage in allocatable frames); page-table indices (256,1,510,255)"
-    //@ obligation C09 C09.set_flags_p3_entry_2mib.shape_p3_table.no_frames_requested_or_zeroed tier=thorough bounded="pool of 7 tables (4 path + 3 allocatable); tree-shaped sparse pre-state (target path, one neighbour word per path table, garbage in allocatable frames); page-table indices (256,1,510,255)"
-    //@ obligation C09 C09.set_flags_p3_entry_2mib.shape_p3_table.no_dangling_table_pointer tier=thorough bounded="pool of 7 tables (4 path + 3 allocatable); tree-shaped sparse pre-state (target path, one neighbour word per path table, garbage in allocatable frames); page-table indices (256,1,510,255)"
+    //@ obligation C02 C02.set_flags_p3_entry_2mib.shape_p3_table.documented_outcome bounded="pool of 7 tables (4 path + 3 allocatable); tree-shaped sparse pre-state (target path, one neighbour word per path table, garbage in allocatable frames); page-table indices (256,1,510,255)"
+    //@ obligation C01 C01.set_flags_p3_entry_2mib.shape_p3_table.no_leaf_changes bounded="pool of 7 tables (4 path + 3 allocatable); tree-shaped sparse pre-state (target path, one neighbour word per path table, garbage in allocatable frames); page-table indices (256,1,510,255)"
+    //@ obligation C01 C01.set_flags_p3_entry_2mib.shape_p3_table.entry_flags_replaced_address_kept bounded="pool of 7 tables (4 path + 3 allocatable); tree-shaped sparse pre-state (target path, one neighbour word per path table, garbage in allocatable frames); page-table indices (256,1,510,255)"
+    //@ obligation C11 C11.set_flags_p3_entry_2mib.shape_p3_table.flush_all_token bounded="pool of 7 tables (4 path + 3 allocatable); tree-shaped sparse pre-state (target path, one neighbour word per path table, garbage in allocatable frames); page-table indices (256,1,510,255)"
+    //@ obligation C09 C09.set_flags_p3_entry_2mib.shape_p3_table.only_dictated_slots_change bounded="pool of 7 tables (4 path + 3 allocatable); tree-shaped sparse pre-state (target path, one neighbour word per path table, garbage in allocatable frames); page-table indices (256,1,510,255)"
+    //@ obligation C09 C09.set_flags_p3_entry_2mib.shape_p3_table.no_frames_requested_or_zeroed bounded="pool of 7 tables (4 path + 3 allocatable); tree-shaped sparse pre-state (target path, one neighbour word per path table, garbage in allocatable frames); page-table indices (256,1,510,255)"
+    //@ obligation C09 C09.set_flags_p3_entry_2mib.shape_p3_table.no_dangling_table_pointer bounded="pool of 7 tables (4 path + 3 allocatable); tree-shaped sparse pre-state (target path, one neighbour word per path table, garbage in allocatable frames); page-table indices (256,1,510,255)"
     #[kani::proof]
     #[kani::stub(PageTable::zero, zero_stub)]
     fn c01_set_flags_p3_entry_2mib_p3_table_up() {
@@ -833,11 +833,11 @@ mod verif_c01_step_flags {
         kani::cover!(true, "c01_set_flags_p3_entry_2mib_p3_table_up: reachable");
     }
 
-    //@ obligation C02 C02.set_flags_p3_entry_1gib.shape_any.level_above_leaf_does_not_exist_is_error bounded="pool of 7 tables (4 path + 3 allocatable); tree-shaped sparse pre-state (target path, one neighbour word per path table, garbage in allocatable frames); page-table indices (0,0,0,0)"
-    //@ obligation C02 C02.set_flags_p3_entry_1gib.shape_any.error_leaves_every_mapping bounded="pool of 7 tables (4 path + 3 allocatable); tree-shaped sparse pre-state (target path, one neighbour word per path table, garbage in allocatable frames); page-table indices (0,0,0,0)"
-    //@ obligation C09 C09.set_flags_p3_entry_1gib.shape_any.only_dictated_slots_change bounded="pool of 7 tables (4 path + 3 allocatable); tree-shaped sparse pre-state (target path, one neighbour word per path table, garbage in allocatable frames); page-table indices (0,0,0,0)"
-    //@ obligation C09 C09.set_flags_p3_entry_1gib.shape_any.no_frames_requested_or_zeroed bounded="pool of 7 tables (4 path + 3 allocatable); tree-shaped sparse pre-state (target path, one neighbour word per path table, garbage in allocatable frames); page-table indices (0,0,0,0)"
-    //@ obligation C09 C09.set_flags_p3_entry_1gib.shape_any.no_dangling_table_pointer bounded="pool of 7 tables (4 path + 3 allocatable); tree-shaped sparse pre-state (target path, one neighbour word per path table, garbage in allocatable frames); page-table indices (0,0,0,0)"
+    //@ obligation C02 C02.set_flags_p3_entry_1gib.shape_any.level_above_leaf_does_not_exist_is_error tier=thorough bounded="pool of 7 tables (4 path + 3 allocatable); tree-shaped sparse pre-state (target path, one neighbour word per path table, garbage in allocatable frames); page-table indices (0,0,0,0)"
+    //@ obligation C02 C02.set_flags_p3_entry_1gib.shape_any.error_leaves_every_mapping tier=thorough bounded="pool of 7 tables (4 path + 3 allocatable); tree-shaped sparse pre-state (target path, one neighbour word per path table, garbage in allocatable frames); page-table indices (0,0,0,0)"
+    //@ obligation C09 C09.set_flags_p3_entry_1gib.shape_any.only_dictated_slots_change tier=thorough bounded="pool of 7 tables (4 path + 3 allocatable); tree-shaped sparse pre-state (target path, one neighbour word per path table, garbage in allocatable frames); page-table indices (0,0,0,0)"
+    //@ obligation C09 C09.set_flags_p3_entry_1gib.shape_any.no_frames_requested_or_zeroed tier=thorough bounded="pool of 7 tables (4 path + 3 allocatable); tree-shaped sparse pre-state (target path, one neighbour word per path table, garbage in allocatable frames); page-table indices (0,0,0,0)"
+    //@ obligation C09 C09.set_flags_p3_entry_1gib.shape_any.no_dangling_table_pointer tier=thorough bounded="pool of 7 tables (4 path + 3 allocatable); tree-shaped sparse pre-state (target path, one neighbour word per path table, garbage in allocatable frames); page-table indices (0,0,0,0)"
     #[kani::proof]
     #[kani::stub(PageTable::zero, zero_stub)]
     fn c02_set_flags_p3_entry_1gib_any_lo() {
@@ -857,11 +857,11 @@ mod verif_c01_step_flags {
         kani::cover!(true, "c02_set_flags_p3_entry_1gib_any_hi: reachable");
     }
 
-    //@ obligation C02 C02.set_flags_p3_entry_1gib.shape_any.level_above_leaf_does_not_exist_is_error tier=thorough bounded="pool of 7 tables (4 path + 3 allocatable); tree-shaped sparse pre-state (target path, one neighbour word per path table, garbage in allocatable frames); page-table indices (255,511,0,1)"
-    //@ obligation C02 C02.set_flags_p3_entry_1gib.shape_any.error_leaves_every_mapping tier=thorough bounded="pool of 7 tables (4 path + 3 allocatable); tree-shaped sparse pre-state (target path, one neighbour word per path table, garbage in allocatable frames); page-table indices (255,511,0,1)"
-    //@ obligation C09 C09.set_flags_p3_entry_1gib.shape_any.only_dictated_slots_change tier=thorough bounded="pool of 7 tables (4 path + 3 allocatable); tree-shaped sparse pre-state (target path, one neighbour word per path table, garbage in allocatable frames); page-table indices (255,511,0,1)"
-    //@ obligation C09 C09.set_flags_p3_entry_1gib.shape_any.no_frames_requested_or_zeroed tier=thorough bounded="pool of 7 tables (4 path + 3 allocatable); tree-shaped sparse pre-state (target path, one neighbour word per path table, garbage in allocatable frames); page-table indices (255,511,0,1)"
-    //@ obligation C09 C09.set_flags_p3_entry_1gib.shape_any.no_dangling_table_pointer tier=thorough bounded="pool of 7 tables (4 path + 3 allocatable); tree-shaped sparse pre-state (target path, one neighbour word per path table, garbage in allocatable frames); page-table indices (255,511,0,1)"
+    //@ obligation C02 C02.set_flags_p3_entry_1gib.shape_any.level_above_leaf_does_not_exist_is_error bounded="pool of 7 tables (4 path + 3 allocatable); tree-shaped sparse pre-state (target path, one neighbour word per path table, garbage in allocatable frames); page-table indices (255,511,0,1)"
+    //@ obligation C02 C02.set_flags_p3_entry_1gib.shape_any.error_leaves_every_mapping bounded="pool of 7 tables (4 path + 3 allocatable); tree-shaped sparse pre-state (target path, one neighbour word per path table, garbage in allocatable frames); page-table indices (255,511,0,1)"
+    //@ obligation C09 C09.set_flags_p3_entry_1gib.shape_any.only_dictated_slots_change bounded="pool of 7 tables (4 path + 3 allocatable); tree-shaped sparse pre-state (target path, one neighbour word per path table, garbage in allocatable frames); page-table indices (255,511,0,1)"
+    //@ obligation C09 C09.set_flags_p3_entry_1gib.shape_any.no_frames_requested_or_zeroed bounded="pool of 7 tables (4 path + 3 allocatable); tree-shaped sparse pre-state (target path, one neighbour word per path table, garbage in allocatable frames); page-table indices (255,511,0,1)"
+    //@ obligation C09 C09.set_flags_p3_entry_1gib.shape_any.no_dangling_table_pointer bounded="pool of 7 tables (4 path + 3 allocatable); tree-shaped sparse pre-state (target path, one neighbour word per path table, garbage in allocatable frames); page-table indices (255,511,0,1)"
     #[kani::proof]
     #[kani::stub(PageTable::zero, zero_stub)]
     fn c02_set_flags_p3_entry_1gib_any_mid() {
@@ -977,11 +977,11 @@ mod verif_c01_step_flags {
         kani::cover!(true, "c02_set_flags_p2_entry_4kib_p3_absent_up: reachable");
     }
 
-    //@ obligation C02 C02.set_flags_p2_entry_4kib.shape_p3_huge.documented_outcome bounded="pool of 7 tables (4 path + 3 allocatable); tree-shaped sparse pre-state (target path, one neighbour word per path table, garbage in allocatable frames); page-table indices (0,0,0,0)"
-    //@ obligation C02 C02.set_flags_p2_entry_4kib.shape_p3_huge.error_leaves_every_mapping bounded="pool of 7 tables (4 path + 3 allocatable); tree-shaped sparse pre-state (target path, one neighbour word per path table, garbage in allocatable frames); page-table indices (0,0,0,0)"
-    //@ obligation C09 C09.set_flags_p2_entry_4kib.shape_p3_huge.only_dictated_slots_change bounded="pool of 7 tables (4 path + 3 allocatable); tree-shaped sparse pre-state (target path, one neighbour word per path table, garbage in allocatable frames); page-table indices (0,0,0,0)"
-    //@ obligation C09 C09.set_flags_p2_entry_4kib.shape_p3_huge.no_frames_requested_or_zeroed bounded="pool of 7 tables (4 path + 3 allocatable); tree-shaped sparse pre-state (target path, one neighbour word per path table, garbage in allocatable frames); page-table indices (0,0,0,0)"
-    //@ obligation C09 C09.set_flags_p2_entry_4kib.shape_p3_huge.no_dangling_table_pointer bounded="pool of 7 tables (4 path + 3 allocatable); tree-shaped sparse pre-state (target path, one neighbour word per path table, garbage in allocatable frames); page-table indices (0,0,0,0)"
+    //@ obligation C02 C02.set_flags_p2_entry_4kib.shape_p3_huge.documented_outcome tier=thorough bounded="pool of 7 tables (4 path + 3 allocatable); tree-shaped sparse pre-state (target path, one neighbour word per path table, garbage in allocatable frames); page-table indices (0,0,0,0)"
+    //@ obligation C02 C02.set_flags_p2_entry_4kib.shape_p3_huge.error_leaves_every_mapping tier=thorough bounded="pool of 7 tables (4 path + 3 allocatable); tree-shaped sparse pre-state (target path, one neighbour word per path table, garbage in allocatable frames); page-table indices (0,0,0,0)"
+    //@ obligation C09 C09.set_flags_p2_entry_4kib.shape_p3_huge.only_dictated_slots_change tier=thorough bounded="pool of 7 tables (4 path + 3 allocatable); tree-shaped sparse pre-state (target path, one neighbour word per path table, garbage in allocatable frames); page-table indices (0,0,0,0)"
+    //@ obligation C09 C09.set_flags_p2_entry_4kib.shape_p3_huge.no_frames_requested_or_zeroed tier=thorough bounded="pool of 7 tables (4 path + 3 allocatable); tree-shaped sparse pre-state (target path, one neighbour word per path table, garbage in allocatable frames); page-table indices (0,0,0,0)"
+    //@ obligation C09 C09.set_flags_p2_entry_4kib.shape_p3_huge.no_dangling_table_pointer tier=thorough bounded="pool of 7 tables (4 path + 3 allocatable); tree-shaped sparse pre-state (target path, one neighbour word per path table, garbage in allocatable frames); page-table indices (0,0,0,0)"
     #[kani::proof]
     #[kani::stub(PageTable::zero, zero_stub)]
     fn c02_set_flags_p2_entry_4kib_p3_huge_lo() {
@@ -1001,11 +1001,11 @@ mod verif_c01_step_flags {
         kani::cover!(true, "c02_set_flags_p2_entry_4kib_p3_huge_hi: reachable");
     }
 
-    //@ obligation C02 C02.set_flags_p2_entry_4kib.shape_p3_huge.documented_outcome tier=thorough bounded="pool of 7 tables (4 path + 3 allocatable); tree-shaped sparse pre-state (target path, one neighbour word per path table, garbage in allocatable frames); page-table indices (255,511,0,1)"
-    //@ obligation C02 C02.set_flags_p2_entry_4kib.shape_p3_huge.error_leaves_every_mapping tier=thorough bounded="pool of 7 tables (4 path + 3 allocatable); tree-shaped sparse pre-state (target path, one neighbour word per path table, garbage in allocatable frames); page-table indices (255,511,0,1)"
-    //@ obligation C09 C09.set_flags_p2_entry_4kib.shape_p3_huge.only_dictated_slots_change tier=thorough bounded="pool of 7 tables (4 path + 3 allocatable); tree-shaped sparse pre-state (target path, one neighbour word per path table, garbage in allocatable frames); page-table indices (255,511,0,1)"
-    //@ obligation C09 C09.set_flags_p2_entry_4kib.shape_p3_huge.no_frames_requested_or_zeroed tier=thorough bounded="pool of 7 tables (4 path + 3 allocatable); tree-shaped sparse pre-state (target path, one neighbour word per path table, garbage in allocatable frames); page-table indices (255,511,0,1)"
-    //@ obligation C09 C09.set_flags_p2_entry_4kib.shape_p3_huge.no_dangling_table_pointer tier=thorough bounded="pool of 7 tables (4 path + 3 allocatable); tree-shaped sparse pre-state (target path, one neighbour word per path table, garbage in allocatable frames); page-table indices (255,511,0,1)"
+    //@ obligation C02 C02.set_flags_p2_entry_4kib.shape_p3_huge.documented_outcome bounded="pool of 7 tables (4 path + 3 allocatable); tree-shaped sparse pre-state (target path, one neighbour word per path table, garbage in allocatable frames); page-table indices (255,511,0,1)"
+    //@ obligation C02 C02.set_flags_p2_entry_4kib.shape_p3_huge.error_leaves_every_mapping bounded="pool of 7 tables (4 path + 3 allocatable); tree-shaped sparse pre-state (target path, one neighbour word per path table, garbage in allocatable frames); page-table indices (255,511,0,1)"
+    //@ obligation C09 C09.set_flags_p2_entry_4kib.shape_p3_huge.only_dictated_slots_change bounded="pool of 7 tables (4 path + 3 allocatable); tree-shaped sparse pre-state (target path, one neighbour word per path table, garbage in allocatable frames); page-table indices (255,511,0,1)"
+    //@ obligation C09 C09.set_flags_p2_entry_4kib.shape_p3_huge.no_frames_requested_or_zeroed bounded="pool of 7 tables (4 path + 3 allocatable); tree-shaped sparse pre-state (target path, one neighbour word per path table, garbage in allocatable frames); page-table indices (255,511,0,1)"
+    //@ obligation C09 C09.set_flags_p2_entry_4kib.shape_p3_huge.no_dangling_table_pointer bounded="pool of 7 tables (4 path + 3 allocatable); tree-shaped sparse pre-state (target path, one neighbour word per path table, garbage in allocatable frames); page-table indices (255,511,0,1)"
     #[kani::proof]
     #[kani::stub(PageTable::zero, zero_stub)]
     fn c02_set_flags_p2_entry_4kib_p3_huge_mid() {
@@ -1189,11 +1189,11 @@ mod verif_c01_step_flags {
         kani::cover!(true, "c02_set_flags_p2_entry_2mib_any_lo: reachable");
     }
 
-    //@ obligation C02 C02.set_flags_p2_entry_2mib.shape_any.level_above_leaf_does_not_exist_is_error bounded="pool of 7 tables (4 path + 3 allocatable); tree-shaped sparse pre-state (target path, one neighbour word per path table, garbage in allocatable frames); page-table indices (511,511,511,511)"
-    //@ obligation C02 C02.set_flags_p2_entry_2mib.shape_any.error_leaves_every_mapping bounded="pool of 7 tables (4 path + 3 allocatable); tree-shaped sparse pre-state (target path, one neighbour word per path table, garbage in allocatable frames); page-table indices (511,511,511,511)"
-    //@ obligation C09 C09.set_flags_p2_entry_2mib.shape_any.only_dictated_slots_change bounded="pool of 7 tables (4 path + 3 allocatable); tree-shaped sparse pre-state (target path, one neighbour word per path table, garbage in allocatable frames); page-table indices (511,511,511,511)"
-    //@ obligation C09 C09.set_flags_p2_entry_2mib.shape_any.no_frames_requested_or_zeroed bounded="pool of 7 tables (4 path + 3 allocatable); tree-shaped sparse pre-state (target path, one neighbour word per path table, garbage in allocatable frames); page-table indices (511,511,511,511)"
-    //@ obligation C09 C09.set_flags_p2_entry_2mib.shape_any.no_dangling_table_pointer bounded="pool of 7 tables (4 path + 3 allocatable); tree-shaped sparse pre-state (target path, one neighbour word per path table, garbage in allocatable frames); page-table indices (511,511,511,511)"
+    //@ obligation C02 C02.set_flags_p2_entry_2mib.shape_any.level_above_leaf_does_not_exist_is_error tier=thorough bounded="pool of 7 tables (4 path + 3 allocatable); tree-shaped sparse pre-state (target path, one neighbour word per path table, garbage in allocatable frames); page-table indices (511,511,511,511)"
+    //@ obligation C02 C02.set_flags_p2_entry_2mib.shape_any.error_leaves_every_mapping tier=thorough bounded="pool of 7 tables (4 path + 3 allocatable); tree-shaped sparse pre-state (target path, one neighbour word per path table, garbage in allocatable frames); page-table indices (511,511,511,511)"
+    //@ obligation C09 C09.set_flags_p2_entry_2mib.shape_any.only_dictated_slots_change tier=thorough bounded="pool of 7 tables (4 path + 3 allocatable); tree-shaped sparse pre-state (target path, one neighbour word per path table, garbage in allocatable frames); page-table indices (511,511,511,511)"
+    //@ obligation C09 C09.set_flags_p2_entry_2mib.shape_any.no_frames_requested_or_zeroed tier=thorough bounded="pool of 7 tables (4 path + 3 allocatable); tree-shaped sparse pre-state (target path, one neighbour word per path table, garbage in allocatable frames); page-table indices (511,511,511,511)"
+    //@ obligation C09 C09.set_flags_p2_entry_2mib.shape_any.no_dangling_table_pointer tier=thorough bounded="pool of 7 tables (4 path + 3 allocatable); tree-shaped sparse pre-state (target path, one neighbour word per path table, garbage in allocatable frames); page-table indices (511,511,511,511)"
     #[kani::proof]
     #[kani::stub(PageTable::zero, zero_stub)]
     fn c02_set_flags_p2_entry_2mib_any_hi() {
@@ -1213,11 +1213,11 @@ mod verif_c01_step_flags {
         kani::cover!(true, "c02_set_flags_p2_entry_2mib_any_mid: reachable");
     }
 
-    //@ obligation C02 C02.set_flags_p2_entry_2mib.shape_any.level_above_leaf_does_not_exist_is_error tier=thorough bounded="pool of 7 tables (4 path + 3 allocatable); tree-shaped sparse pre-state (target path, one neighbour word per path table, garbage in allocatable frames); page-table indices (256,1,510,255)"
-    //@ obligation C02 C02.set_flags_p2_entry_2mib.shape_any.error_leaves_every_mapping tier=thorough bounded="pool of 7 tables (4 path + 3 allocatable); tree-shaped sparse pre-state (target path, one neighbour word per path table, garbage in allocatable frames); page-table indices (256,1,510,255)"
-    //@ obligation C09 C09.set_flags_p2_entry_2mib.shape_any.only_dictated_slots_change tier=thorough bounded="pool of 7 tables (4 path + 3 allocatable); tree-shaped sparse pre-state (target path, one neighbour word per path table, garbage in allocatable frames); page-table indices (256,1,510,255)"
-    //@ obligation C09 C09.set_flags_p2_entry_2mib.shape_any.no_frames_requested_or_zeroed tier=thorough bounded="pool of 7 tables (4 path + 3 allocatable); tree-shaped sparse pre-state (target path, one neighbour word per path table, garbage in allocatable frames); page-table indices (256,1,510,255)"
-    //@ obligation C09 C09.set_flags_p2_entry_2mib.shape_any.no_dangling_table_pointer tier=thorough bounded="pool of 7 tables (4 path + 3 allocatable); tree-shaped sparse pre-state (target path, one neighbour word per path table, garbage in allocatable frames); page-table indices (256,1,510,255)"
+    //@ obligation C02 C02.set_flags_p2_entry_2mib.shape_any.level_above_leaf_does_not_exist_is_error bounded="pool of 7 tables (4 path + 3 allocatable); tree-shaped sparse pre-state (target path, one neighbour word per path table, garbage in allocatable frames); page-table indices (256,1,510,255)"
+    //@ obligation C02 C02.set_flags_p2_entry_2mib.shape_any.error_leaves_every_mapping bounded="pool of 7 tables (4 path + 3 allocatable); tree-shaped sparse pre-state (target path, one neighbour word per path table, garbage in allocatable frames); page-table indices (256,1,510,255)"
+    //@ obligation C09 C09.set_flags_p2_entry_2mib.shape_any.only_dictated_slots_change bounded="pool of 7 tables (4 path + 3 allocatable); tree-shaped sparse pre-state (target path, one neighbour word per path table, garbage in allocatable frames); page-table indices (256,1,510,255)"
+    //@ obligation C09 C09.set_flags_p2_entry_2mib.shape_any.no_frames_requested_or_zeroed bounded="pool of 7 tables (4 path + 3 allocatable); tree-shaped sparse pre-state (target path, one neighbour word per path table, garbage in allocatable frames); page-table indices (256,1,510,255)"
+    //@ obligation C09 C09.set_flags_p2_entry_2mib.shape_any.no_dangling_table_pointer bounded="pool of 7 tables (4 path + 3 allocatable); tree-shaped sparse pre-state (target path, one neighbour word per path table, garbage in allocatable frames); page-table indices (256,1,510,255)"
     #[kani::proof]
     #[kani::stub(PageTable::zero, zero_stub)]
     fn c02_set_flags_p2_entry_2mib_any_up() {
